@@ -32,7 +32,9 @@ def policy_seconds(policy: dict | None, k: int) -> float:
     return float(max(policy["min"], min(policy["mult"] * 2**exponent, policy["max"])))
 
 
-def _text_of(exc: str, text: str) -> str:
+def _text_of(exc: str, text: str) -> Any:
+    if exc == "BadStrError":
+        return None  # its text cannot be rendered; whether/what is stored is not constrained
     # str(KeyError('k')) == "'k'"
     if exc == "KeyError":
         return repr(text)
@@ -67,6 +69,8 @@ def chain(job: dict, policy: dict | None, max_deliveries: int = 14) -> tuple[lis
         elif k == "ret":
             if dur >= timeout:
                 kind, dur, result = "failure", timeout, ("err-timeout",)
+            elif isinstance(o.get("v"), dict) and o["v"].get("$unserializable"):
+                kind, result = "failure", ("err-any",)  # return value cannot be encoded (TypeError / serialization error)
             else:
                 kind, result = "success", ("ok", o.get("v"))
         elif k == "raise":
